@@ -8,6 +8,8 @@ mod c12;
 mod c08;
 mod c09;
 mod c16;
+mod c10;
+mod backhalf;
 pub mod compile;
 
 fn opt(args: &[String], k: &str) -> Option<String> {
@@ -78,6 +80,7 @@ fn main() {
                 "C08" => c08::run(&tier, seed),
                 "C09" => c09::run(&tier, seed),
                 "C16" => c16::run(&tier, seed),
+                "C10" => c10::run(&tier, seed),
                 _ => {
                     eprintln!("unknown property {prop}");
                     2
